@@ -3,7 +3,7 @@
     No Extract Constant / Extract Inductive directive of our own. *)
 Require Extraction.
 Require Import ExtrOcamlBasic.
-From ZV Require Import Base.Bytes Base.Res Spec.Rfc23 Model.Codec Spec.Stream Spec.Compat Model.Handshake Model.World Model.FairQueue Model.TrySend Model.Proxy Model.Endpoint Model.Runtime.
+From ZV Require Import Base.Bytes Base.Res Spec.Rfc23 Model.Codec Spec.Stream Spec.Compat Model.Handshake Model.World Model.FairQueue Model.TrySend Model.Proxy Model.Endpoint Model.Runtime Model.Chain.
 Extraction Language OCaml.
 Separate Extraction
   Bytes.be Bytes.of_be Bytes.lenN Bytes.is_prefix
@@ -18,4 +18,5 @@ Separate Extraction
   TrySend.try_sends TrySend.sink0 TrySend.accepted Codec.encode_frames
   Proxy.pstate0 Proxy.proxy_settle Proxy.proxy_iter
   Endpoint.parse_endpoint Endpoint.fmt_endpoint
+  Chain.chain0 Chain.cstep Chain.quiescent
   Runtime.brun Runtime.bstate0 Runtime.drop_socket Runtime.conn_open Runtime.listening.
